@@ -20,18 +20,23 @@
 (* Since every valid id is reached from a face cell by child moves, this   *)
 (* is a proof for all 6 * (4^31 - 1) / 3 cell ids.                         *)
 (*                                                                         *)
-(*   apalache-mc check --config=<LevLo/LevHi> --init=IndInit --inv=<Ob> --length=0 IdAlgebra.tla *)
-(*   apalache-mc check --init=Init    --inv=IndInv --length=0               *)
-(*   apalache-mc check --init=IndInit --inv=IndInv --length=1               *)
+(*                                                                         *)
+(* SMT friendliness: x % lsb is linear only if lsb is a literal, so every  *)
+(* law is the conjunction over the 31 literal levels c of                  *)
+(*   lev = c => Body(4^(30 - c))      (operators Every / Some below);      *)
+(* the laws about two levels (id and oid / ancestor level) take the level  *)
+(* of id from the constant Lev (0..30; Lev = 31 means "any level" and is   *)
+(* used with the one-level laws only) and range over the other level.      *)
+(*   apalache-mc check --config=<Lev> --init=IndInit --inv=<Law> --length=0 *)
+(*   apalache-mc check --config=<Lev> --init=Init    --inv=IndInv --length=0 *)
+(*   apalache-mc check --config=<Lev> --init=IndInit --inv=IndInv --length=1 *)
 (***************************************************************************)
 EXTENDS Integers
 
-CONSTANTS
-    \* the levels of `id` covered by one run are LevLo..LevHi
+CONSTANT
+    \* the level of `id` in this run (0..30), or 31: any level
     \* @type: Int;
-    LevLo,
-    \* @type: Int;
-    LevHi
+    Lev
 
 VARIABLES
     \* @type: Int;
@@ -51,48 +56,55 @@ MaxLevel == 30
 NumFaces == 6
 P61 == 2^61
 P64 == 2^64
-\* lsbForLevel(level) = 1 << 2*(MaxLevel-level)
-\* @type: Int -> Int;
-LsbForLevel == [l \in 0..30 |-> 4^(30 - l)]
+\* lsbForLevel(level) = 1 << 2*(MaxLevel-level); c is always a literal
+Lsb(c) == 4^(30 - c)
+
+Every(P(_)) ==
+    /\ P(0) /\ P(1) /\ P(2) /\ P(3) /\ P(4) /\ P(5) /\ P(6) /\ P(7) /\ P(8) /\ P(9) /\ P(10)
+    /\ P(11) /\ P(12) /\ P(13) /\ P(14) /\ P(15) /\ P(16) /\ P(17) /\ P(18) /\ P(19) /\ P(20)
+    /\ P(21) /\ P(22) /\ P(23) /\ P(24) /\ P(25) /\ P(26) /\ P(27) /\ P(28) /\ P(29) /\ P(30)
+Some(P(_)) ==
+    \/ P(0) \/ P(1) \/ P(2) \/ P(3) \/ P(4) \/ P(5) \/ P(6) \/ P(7) \/ P(8) \/ P(9) \/ P(10)
+    \/ P(11) \/ P(12) \/ P(13) \/ P(14) \/ P(15) \/ P(16) \/ P(17) \/ P(18) \/ P(19) \/ P(20)
+    \/ P(21) \/ P(22) \/ P(23) \/ P(24) \/ P(25) \/ P(26) \/ P(27) \/ P(28) \/ P(29) \/ P(30)
 
 ClearBelow(x, p) == x - (x % p)                          \* x & -p
 BitSet(x, p) == (x \div p) % 2 = 1                       \* x & p # 0
 OrBit(x, p) == IF BitSet(x, p) THEN x ELSE x + p         \* x | p
 
 \* ---- validity: Face() < 6 and the lowest set bit is at an even position (lsb & 0x1555..5 # 0)
-HasLevel(x, l) == x % (2 * LsbForLevel[l]) = LsbForLevel[l]
-Valid(x, l) == l \in 0..30 /\ x >= 0 /\ x \div P61 < NumFaces /\ HasLevel(x, l)
+HasLevel(x, c) == x % (2 * Lsb(c)) = Lsb(c)
+Valid(x, l) == x >= 0 /\ x \div P61 < NumFaces /\ Some(LAMBDA c : l = c /\ HasLevel(x, c))
 
-\* ---- s2/cellid.go, with L = lsb() of the receiver
+\* ---- s2/cellid.go, with L = lsb() of the receiver and PL = lsbForLevel(level argument)
 Face(x) == x \div P61
 Pos(x) == x % P61
-CellIDFromFace(f) == f * P61 + LsbForLevel[0]
+CellIDFromFace(f) == f * P61 + Lsb(0)
 RangeMin(x, L) == x - (L - 1)
 RangeMax(x, L) == x + (L - 1)
-Parent(x, l) == OrBit(ClearBelow(x, LsbForLevel[l]), LsbForLevel[l])     \* (ci & -lsb) | lsb
+Parent(x, PL) == OrBit(ClearBelow(x, PL), PL)                            \* (ci & -lsb) | lsb
 ImmediateParent(x, L) == OrBit(ClearBelow(x, 4 * L), 4 * L)              \* nlsb = lsb << 2
 ChildBegin(x, L) == x - L + L \div 4
 ChildEnd(x, L) == x + L + L \div 4
 \* Children(): ch[0] = ci - lsb + lsb>>2; lsb >>= 1; ch[i+1] = ch[i] + lsb
 Child(x, L, j) == (x - L + L \div 4) + j * (L \div 2)
-ChildBeginAtLevel(x, L, l) == x - L + LsbForLevel[l]
-ChildEndAtLevel(x, L, l) == x + L + LsbForLevel[l]
+ChildBeginAtLevel(x, L, PL) == x - L + PL
+ChildEndAtLevel(x, L, PL) == x + L + PL
 NextId(x, L) == x + 2 * L
 PrevId(x, L) == x - 2 * L
 Contains(x, L, y) == RangeMin(x, L) <= y /\ y <= RangeMax(x, L)
 Intersects(x, Lx, y, Ly) == RangeMin(y, Ly) <= RangeMax(x, Lx) /\ RangeMax(y, Ly) >= RangeMin(x, Lx)
 IsLeaf(x) == x % 2 = 1
-IsFace(x) == x % LsbForLevel[0] = 0                                      \* ci & (lsbForLevel(0)-1) == 0
+IsFace(x) == x % Lsb(0) = 0                                              \* ci & (lsbForLevel(0)-1) == 0
 
-LSB == LsbForLevel[lev]
-OLSB == LsbForLevel[olev]
-
-\* ---- the inductive invariant and its restriction to the levels of one run
+\* ---- the inductive invariant and its restriction to the level of one run
 IndInv ==
+    /\ lev \in 0..30 /\ olev \in 0..30
     /\ Valid(id, lev) /\ Valid(oid, olev)
     /\ k \in 0..3 /\ pl \in 0..30 /\ pl <= lev
 IndInit ==
-    /\ id \in Int /\ lev \in LevLo..LevHi /\ k \in Int /\ pl \in Int /\ oid \in Int /\ olev \in 0..30
+    /\ id \in Int /\ lev \in Int /\ k \in Int /\ pl \in Int /\ oid \in Int /\ olev \in Int
+    /\ (Lev <= 30 => lev = Lev)
     /\ IndInv
 \* the face cells
 Init ==
@@ -100,87 +112,111 @@ Init ==
     /\ lev = 0 /\ k \in 0..3 /\ pl = 0
     /\ \E f \in 0..5 : oid = CellIDFromFace(f)
     /\ olev = 0
-\* the moves; the auxiliary components are arbitrary again
+\* the moves (c = literal level of id); the auxiliary components are arbitrary again
 Aux == k' \in 0..3 /\ pl' \in 0..lev' /\ oid' = oid /\ olev' = olev
-Next ==
-    \/ lev < 30 /\ id' = Child(id, LSB, k) /\ lev' = lev + 1 /\ Aux
-    \/ lev > 0 /\ id' = ImmediateParent(id, LSB) /\ lev' = lev - 1 /\ Aux
-    \/ pl <= lev /\ id' = Parent(id, pl) /\ lev' = pl /\ Aux
-    \/ NextId(id, LSB) < NumFaces * P61 /\ id' = NextId(id, LSB) /\ lev' = lev /\ Aux
-    \/ PrevId(id, LSB) >= 0 /\ id' = PrevId(id, LSB) /\ lev' = lev /\ Aux
+MoveAt(c) ==
+    /\ lev = c
+    /\ \/ c < 30 /\ id' = Child(id, Lsb(c), k) /\ lev' = c + 1 /\ Aux
+       \/ c > 0 /\ id' = ImmediateParent(id, Lsb(c)) /\ lev' = c - 1 /\ Aux
+       \/ NextId(id, Lsb(c)) < NumFaces * P61 /\ id' = NextId(id, Lsb(c)) /\ lev' = c /\ Aux
+       \/ PrevId(id, Lsb(c)) >= 0 /\ id' = PrevId(id, Lsb(c)) /\ lev' = c /\ Aux
+       \/ Some(LAMBDA a : a <= c /\ pl = a /\ id' = Parent(id, Lsb(a)) /\ lev' = a /\ Aux)
+Next == Some(MoveAt)
 
 (***************************************************************************)
-(* Obligations (state invariants under IndInit).                           *)
+(* One-level obligations (state invariants under IndInit, any Lev).        *)
 (***************************************************************************)
-\* lsb arithmetic: LSB divides id with an odd quotient (so LSB = id & -id), no other level fits,
-\* the id is below 2^64, its position has the documented layout, Level/IsLeaf/IsFace agree
-LsbLaw ==
-    /\ id % LSB = 0 /\ (id \div LSB) % 2 = 1
-    /\ \A l \in 0..30 : HasLevel(id, l) => l = lev
-    /\ id < P64 /\ id >= LSB
-    /\ Pos(id) % (2 * LSB) = LSB /\ id = Face(id) * P61 + Pos(id)
-    /\ (IsLeaf(id) <=> lev = 30) /\ (IsFace(id) <=> lev = 0)
-\* leaf range: both ends are leaves of the same face, the id is the middle, LSB leaves inside
-RangeLaw ==
-    /\ Valid(RangeMin(id, LSB), 30) /\ Valid(RangeMax(id, LSB), 30)
-    /\ Face(RangeMin(id, LSB)) = Face(id) /\ Face(RangeMax(id, LSB)) = Face(id)
-    /\ RangeMin(id, LSB) <= id /\ id <= RangeMax(id, LSB)
-    /\ RangeMax(id, LSB) - RangeMin(id, LSB) = 2 * (LSB - 1)
-    /\ RangeMin(id, LSB) = ChildBeginAtLevel(id, LSB, 30)
-    /\ RangeMax(id, LSB) + 2 = ChildEndAtLevel(id, LSB, 30)
+\* lsb arithmetic: L divides id with an odd quotient (so L = id & -id), no other level fits,
+\* the id is below 2^64, its position has the documented layout, IsLeaf/IsFace agree with the level
+LsbAt(c) ==
+    lev = c =>
+        LET L == Lsb(c) IN
+        /\ id % L = 0 /\ (id \div L) % 2 = 1
+        /\ Every(LAMBDA a : HasLevel(id, a) => a = c)
+        /\ id < P64 /\ id >= L
+        /\ Pos(id) % (2 * L) = L /\ id = Face(id) * P61 + Pos(id)
+        /\ (IsLeaf(id) <=> c = 30) /\ (IsFace(id) <=> c = 0)
+LsbLaw == Every(LsbAt)
+\* leaf range: both ends are leaves of the same face, the id is the middle, L leaf ids inside
+RangeAt(c) ==
+    lev = c =>
+        LET L == Lsb(c) IN
+        /\ Valid(RangeMin(id, L), 30) /\ Valid(RangeMax(id, L), 30)
+        /\ Face(RangeMin(id, L)) = Face(id) /\ Face(RangeMax(id, L)) = Face(id)
+        /\ RangeMin(id, L) <= id /\ id <= RangeMax(id, L)
+        /\ RangeMax(id, L) - RangeMin(id, L) = 2 * (L - 1)
+        /\ RangeMin(id, L) = ChildBeginAtLevel(id, L, Lsb(30))
+        /\ RangeMax(id, L) + 2 = ChildEndAtLevel(id, L, Lsb(30))
+RangeLaw == Every(RangeAt)
 \* children: valid cells of the next level that partition [RangeMin, RangeMax] in order
-ChildLaw ==
-    lev < 30 =>
-        LET c == Child(id, LSB, k)  CL == LSB \div 4 IN
-        /\ CL = LsbForLevel[lev + 1]
-        /\ Valid(c, lev + 1)
-        /\ Parent(c, lev) = id /\ ImmediateParent(c, CL) = id
-        /\ RangeMin(id, LSB) <= RangeMin(c, CL) /\ RangeMax(c, CL) <= RangeMax(id, LSB)
-        /\ RangeMin(Child(id, LSB, 0), CL) = RangeMin(id, LSB)
-        /\ RangeMax(Child(id, LSB, 3), CL) = RangeMax(id, LSB)
-        /\ (k < 3 => RangeMax(c, CL) + 2 = RangeMin(Child(id, LSB, k + 1), CL))
-        /\ (k < 3 => NextId(c, CL) = Child(id, LSB, k + 1))
-        /\ ChildBegin(id, LSB) = Child(id, LSB, 0)
-        /\ ChildEnd(id, LSB) = NextId(Child(id, LSB, 3), CL)
-        /\ ChildBegin(id, LSB) = ChildBeginAtLevel(id, LSB, lev + 1)
-        /\ ChildEnd(id, LSB) = ChildEndAtLevel(id, LSB, lev + 1)
-        /\ Contains(id, LSB, c) /\ ~Contains(c, CL, id)
-        /\ c < P64 /\ ChildEnd(id, LSB) < P64
-\* ancestors: Parent(level) is the valid cell of that level whose range contains the id's range
-ParentLaw ==
-    LET p == Parent(id, pl)  PL == LsbForLevel[pl] IN
-    /\ Valid(p, pl)
-    /\ RangeMin(p, PL) <= RangeMin(id, LSB) /\ RangeMax(id, LSB) <= RangeMax(p, PL)
-    /\ Contains(p, PL, id)
-    /\ (pl = lev => p = id)
-    /\ (pl + 1 = lev => ImmediateParent(id, LSB) = p)
-    /\ Face(p) = Face(id)
-    /\ (pl < lev => \E j \in 0..3 : Contains(Child(p, PL, j), PL \div 4, id))
-\* ChildBeginAtLevel / ChildEndAtLevel for a deeper level pl' = olev (reused as a level >= lev)
-LevelRangeLaw ==
-    olev >= lev =>
-        LET b == ChildBeginAtLevel(id, LSB, olev)  e == ChildEndAtLevel(id, LSB, olev) IN
-        /\ Valid(b, olev) /\ RangeMin(b, OLSB) = RangeMin(id, LSB)
-        /\ e - b = 2 * LSB
-        /\ RangeMax(PrevId(e, OLSB), OLSB) = RangeMax(id, LSB)
-        /\ Parent(b, lev) = id /\ Parent(PrevId(e, OLSB), lev) = id
-\* Contains <=> inclusion of leaf ranges <=> "is the ancestor at its level"; cells are nested or disjoint
-ContainsLaw ==
-    LET c1 == Contains(id, LSB, oid)
-        incl == RangeMin(id, LSB) <= RangeMin(oid, OLSB) /\ RangeMax(oid, OLSB) <= RangeMax(id, LSB)
-    IN  /\ c1 <=> incl
-        /\ c1 <=> (olev >= lev /\ Parent(oid, lev) = id)
-        /\ Intersects(id, LSB, oid, OLSB) <=> (Contains(id, LSB, oid) \/ Contains(oid, OLSB, id))
-        /\ Intersects(id, LSB, oid, OLSB) <=> Intersects(oid, OLSB, id, LSB)
-        /\ (Contains(id, LSB, oid) /\ Contains(oid, OLSB, id)) => id = oid
-        /\ (id < oid /\ ~Intersects(id, LSB, oid, OLSB)) => RangeMax(id, LSB) < RangeMin(oid, OLSB)
+ChildAt(c) ==
+    (lev = c /\ c < 30) =>
+        LET L == Lsb(c)  CL == Lsb(c + 1)  ch == Child(id, L, k) IN
+        /\ CL = L \div 4
+        /\ Valid(ch, c + 1)
+        /\ Parent(ch, L) = id /\ ImmediateParent(ch, CL) = id
+        /\ RangeMin(id, L) <= RangeMin(ch, CL) /\ RangeMax(ch, CL) <= RangeMax(id, L)
+        /\ RangeMin(Child(id, L, 0), CL) = RangeMin(id, L)
+        /\ RangeMax(Child(id, L, 3), CL) = RangeMax(id, L)
+        /\ (k < 3 => RangeMax(ch, CL) + 2 = RangeMin(Child(id, L, k + 1), CL))
+        /\ (k < 3 => NextId(ch, CL) = Child(id, L, k + 1))
+        /\ ChildBegin(id, L) = Child(id, L, 0)
+        /\ ChildEnd(id, L) = NextId(Child(id, L, 3), CL)
+        /\ ChildBegin(id, L) = ChildBeginAtLevel(id, L, CL)
+        /\ ChildEnd(id, L) = ChildEndAtLevel(id, L, CL)
+        /\ Contains(id, L, ch) /\ ~Contains(ch, CL, id)
+        /\ ch < P64 /\ ChildEnd(id, L) < P64
+ChildLaw == Every(ChildAt)
 \* moving along the curve at one level
-NextLaw ==
-    /\ RangeMin(NextId(id, LSB), LSB) = RangeMax(id, LSB) + 2
-    /\ RangeMax(PrevId(id, LSB), LSB) + 2 = RangeMin(id, LSB)
-    /\ (NextId(id, LSB) < NumFaces * P61 => Valid(NextId(id, LSB), lev))
-    /\ (PrevId(id, LSB) >= 0 => Valid(PrevId(id, LSB), lev))
-    /\ NextId(id, LSB) < P64 /\ PrevId(id, LSB) > -P61
+NextAt(c) ==
+    lev = c =>
+        LET L == Lsb(c) IN
+        /\ RangeMin(NextId(id, L), L) = RangeMax(id, L) + 2
+        /\ RangeMax(PrevId(id, L), L) + 2 = RangeMin(id, L)
+        /\ (NextId(id, L) < NumFaces * P61 => Valid(NextId(id, L), c))
+        /\ (PrevId(id, L) >= 0 => Valid(PrevId(id, L), c))
+        /\ NextId(id, L) < P64
+NextLaw == Every(NextAt)
+OneLevelLaws == LsbLaw /\ RangeLaw /\ ChildLaw /\ NextLaw
 
-AllLaws == LsbLaw /\ RangeLaw /\ ChildLaw /\ ParentLaw /\ LevelRangeLaw /\ ContainsLaw /\ NextLaw
+(***************************************************************************)
+(* Two-level obligations: the level of id is the constant Lev (0..30), the *)
+(* other level (pl, olev) ranges over all literal levels.                  *)
+(***************************************************************************)
+\* ancestors: Parent(level) is the valid cell of that level whose range contains the id's range
+ParentAt(a) ==
+    (pl = a /\ a <= Lev) =>
+        LET L == Lsb(Lev)  PL == Lsb(a)  p == Parent(id, PL) IN
+        /\ Valid(p, a)
+        /\ RangeMin(p, PL) <= RangeMin(id, L) /\ RangeMax(id, L) <= RangeMax(p, PL)
+        /\ Contains(p, PL, id)
+        /\ (a = Lev => p = id)
+        /\ (a + 1 = Lev => ImmediateParent(id, L) = p)
+        /\ Face(p) = Face(id)
+        /\ (a < Lev => \E j \in 0..3 : Contains(Child(p, PL, j), PL \div 4, id))
+ParentLaw == Every(ParentAt)
+\* ChildBeginAtLevel / ChildEndAtLevel for a level b >= Lev (olev is reused as that level)
+LevelRangeAt(b) ==
+    (olev = b /\ b >= Lev) =>
+        LET L == Lsb(Lev)  BL == Lsb(b)
+            first == ChildBeginAtLevel(id, L, BL)  end == ChildEndAtLevel(id, L, BL) IN
+        /\ Valid(first, b) /\ RangeMin(first, BL) = RangeMin(id, L)
+        /\ end - first = 2 * L
+        /\ RangeMax(PrevId(end, BL), BL) = RangeMax(id, L)
+        /\ Parent(first, L) = id /\ Parent(PrevId(end, BL), L) = id
+LevelRangeLaw == Every(LevelRangeAt)
+\* Contains <=> inclusion of leaf ranges <=> "is the ancestor at its level"; cells are nested or disjoint
+ContainsAt(b) ==
+    olev = b =>
+        LET L == Lsb(Lev)  OL == Lsb(b)
+            c1 == Contains(id, L, oid)
+            incl == RangeMin(id, L) <= RangeMin(oid, OL) /\ RangeMax(oid, OL) <= RangeMax(id, L)
+        IN  /\ c1 <=> incl
+            /\ c1 <=> (b >= Lev /\ Parent(oid, L) = id)
+            /\ Intersects(id, L, oid, OL) <=> (Contains(id, L, oid) \/ Contains(oid, OL, id))
+            /\ Intersects(id, L, oid, OL) <=> Intersects(oid, OL, id, L)
+            /\ (Contains(id, L, oid) /\ Contains(oid, OL, id)) => id = oid
+            /\ (id < oid /\ ~Intersects(id, L, oid, OL)) => RangeMax(id, L) < RangeMin(oid, OL)
+ContainsLaw == Every(ContainsAt)
+TwoLevelLaws == ParentLaw /\ LevelRangeLaw /\ ContainsLaw
 =============================================================================
